@@ -53,6 +53,72 @@ Definition inj_of (z : Z) (cls : bytes) : ores unit :=
 (* per-call limit of write: 0 = the kernel's (MAX_RW_COUNT), otherwise the injected short-write limit *)
 Definition write_limit (a : bytes) : Z := let z := arg_Z a in if z <=? 0 then max_rw_count else z.
 
+(* ---------- operation sequences on one file-system state ----------
+   "seq" n  <n world triples>  <steps of six arguments: kind a1 a2 a3 a4 a5>
+   Helper steps (paths relative to the current directory): wtt content haspath path suffix prefix |
+   ens path | del path | last path num | sum path chunk alg.
+   Harness-side steps (paths relative to the sandbox root; they are what the harness does to the
+   real tree between two calls, not part of the modelled code): rmtree p | mkdir p (make p a
+   directory whatever is in the way) | put p content (make p a regular file with this content
+   whatever is there) | chdir p (if p is a directory). *)
+Fixpoint key_prefixb (a b : fskey) : bool :=
+  match a, b with
+  | [], _ => true
+  | x :: a', y :: b' => beq x y && key_prefixb a' b'
+  | _ :: _, [] => false
+  end.
+Definition set_nodes (w : fsw) (nodes : list (fskey * node)) : fsw := mk_fsw nodes (fs_fds w) (fs_next_fd w).
+Definition rm_subtree (k : fskey) (w : fsw) : fsw :=
+  set_nodes w (filter (fun kn => negb (key_prefixb k (fst kn))) (fs_nodes w)).
+Definition is_file_node (n : node) : bool := match n with NFile _ => true | NDir => false end.
+Definition force_dir (k : fskey) (w : fsw) : fsw :=
+  match k with
+  | [] => w
+  | _ =>
+    let pp := proper_prefixes k ++ [k] in
+    let kept := filter (fun kn => negb (existsb (key_eqb (fst kn)) pp && is_file_node (snd kn))) (fs_nodes w) in
+    set_nodes w (add_dirs pp kept)
+  end.
+Definition put_file (k : fskey) (c : bytes) (w : fsw) : fsw :=
+  let w1 := rm_subtree k (force_dir (removelast k) w) in
+  set_nodes w1 ((k, NFile c) :: fs_nodes w1).
+Definition join_cwd (cwd p : bytes) : bytes := match cwd with [] => p | _ => cwd ++ [47%N] ++ p end.
+
+Definition seq_step (kind a1 a2 a3 a4 a5 : bytes) (w : fsw) (cwd : bytes) : fsw * bytes * bytes :=
+  if is_op "wtt" kind then
+    let path := if arg_bool a2 then Some (join_cwd cwd a3) else None in
+    let '(w1, r) := write_to_tempfile fs_runtime a1 path a4 a5 w in
+    (w1, cwd, out_ores (fun p => p) r)
+  else if is_op "ens" kind then
+    let '(w1, r) := ensure_tree fs_runtime (join_cwd cwd a1) default_mode w in (w1, cwd, out_ores out_unit r)
+  else if is_op "del" kind then
+    let '(w1, r) := delete_if_exists (join_cwd cwd a1) (rt_unlink fs_runtime) w in (w1, cwd, out_ores out_unit r)
+  else if is_op "last" kind then
+    (w, cwd, out_ores (fun du => out_Z (snd du) ++ lit ":" ++ hex_of (fst du)) (last_bytes fs_runtime (join_cwd cwd a1) (arg_Z a2) w))
+  else if is_op "sum" kind then
+    (w, cwd, match compute_file_checksum fs_runtime (join_cwd cwd a1) (arg_Z a2) a3 w with
+             | Some r => out_ores (fun _ => []) r
+             | None => lit "OUT-OF-FUEL"
+             end)
+  else if is_op "rmtree" kind then (rm_subtree (fs_key a1) w, cwd, lit "-")
+  else if is_op "mkdir" kind then (force_dir (fs_key a1) w, cwd, lit "-")
+  else if is_op "put" kind then (put_file (fs_key a1) a2 w, cwd, lit "-")
+  else if is_op "chdir" kind then
+    (w, (if fs_isdir a1 w then a1 else cwd), lit "-")
+  else (w, cwd, lit "BADSTEP").
+
+Fixpoint run_steps (args : list bytes) (w : fsw) (cwd : bytes) : bytes :=
+  match args with
+  | kind :: a1 :: a2 :: a3 :: a4 :: a5 :: rest =>
+      let '(w1, cwd1, out) := seq_step kind a1 a2 a3 a4 a5 w cwd in
+      out ++ lit ";;" ++ run_steps rest w1 cwd1
+  | _ => lit " " ++ out_world w
+  end.
+
+Definition run_seq (args : list bytes) : bytes :=
+  let n := (3 * arg_nat (nth_arg args 1))%nat in
+  run_steps (skipn (2 + n) args) (build_world (firstn n (skipn 2 args))) [].
+
 Definition run (args : list bytes) : bytes :=
   let op := nth_arg args 0 in
   if is_op "ensure_tree" op then
@@ -93,6 +159,7 @@ Definition run (args : list bytes) : bytes :=
     | Some r => out_ores (fun d => d) r
     | None => lit "OUT-OF-FUEL"
     end
+  else if is_op "seq" op then run_seq args
   else if is_op "last_bytes" op then
     out_ores (fun du => out_Z (snd du) ++ lit ":" ++ fst du)
       (last_bytes fs_runtime (nth_arg args 1) (arg_Z (nth_arg args 2)) (build_world (skipn 3 args)))
